@@ -44,7 +44,7 @@ ASSUMPTIONS = ['the cache dict argument is exempt from the purity clause (mutate
                'static verdicts are only reported when not refuted by execution; sites never executed are counted as static-only',
                'rdp.plot_frame (writes a PNG, prints) is exercised statically only']
 BOUNDS = {'quick': {'dynamic': 'Y013 n=6 complete (729 curves) x all registered argument patterns x 5 representations', 'static': 'all reference sites of all 15 modules + __init__'},
-          'thorough': {'dynamic': 'A1 n=6 (4096 curves) + A1 n=7 (16384 curves)', 'static': 'same'}}
+          'thorough': {'dynamic': 'A1 n=6 (4096 curves) + Y013 n=7 (2187 curves)', 'static': 'same'}}
 TECHNIQUE = 'exhaustive enumeration of public functions x argument patterns x array representations on the real code; exhaustive enumeration of reference sites resolved by a name-resolution model with dynamic conformance replay'
 LEVEL_TEXT = ('Model checking: (dynamic) every public function on every curve of the profile in C/F/strided/int64/read-only representations with before/after argument comparison, '
               'repeat-call and cross-representation agreement; (static) every name, module attribute and intra-package call site resolved against the live modules, the resolver being '
@@ -477,7 +477,7 @@ def run_static(res):
 
 
 def units(tier, seed):
-    plan = [('Y013', 6, 48)] if tier == 'quick' else [('A1', 6, 128), ('A1', 7, 256)]
+    plan = [('Y013', 6, 48)] if tier == 'quick' else [('A1', 6, 256), ('Y013', 7, 128)]
     b = curves.bonus(seed, curves.A1)
     plan.append((b.name, 5, 8))
     u = [('dynamic', prof, n, k, K) for prof, n, K in plan for k in range(K)]
